@@ -196,7 +196,7 @@ def su2_unsubscribe(ctx, rep):
     # the subscriber pushed by add_subscriber is its parameter
     # the unsubscribe closure is what Subscription::unsubscribe of the returned handle calls
     try:
-        un = [b for b in ctx.impls_of("Subscription", "unsubscribe") if "ChanneledSubscriber" not in (b.j.get("impl_self") or "")]
+        un = [b for b in ctx.impls_of("Subscription", "unsubscribe") if (b.j.get("impl_adt") or "") != A.channeled_adt["path"]]
         reach = set()
         for u in un:
             reach |= set(ctx.sync_reach([u]))
